@@ -22,6 +22,9 @@ func r6Parse(s string) (y, m, d int, ok bool) {
 	if len(parts) != 2 {
 		return
 	}
+	if parts[0] == "" {
+		return // a digit-by-digit year has at least one digit (year 0 prints as the digit zero)
+	}
 	for _, r := range parts[0] {
 		k := -1
 		for i := 0; i <= 9; i++ {
@@ -132,6 +135,50 @@ func runC19(w *W) {
 				}
 			}
 			prevStr = s
+		}
+		// objects reached by stepping print canonically as well: the printed form of a stepped moment is the fixed-width
+		// rendering of that moment's own fields (hour 00..23, an existing day), whatever route led there
+		{
+			type nav struct {
+				name     string
+				h, mi, s int
+				hours    int
+				f        func(x *calendar.Solar) *calendar.Solar
+			}
+			navs := []nav{
+				{"00:00:00.NextHour(-24)", 0, 0, 0, -24, func(x *calendar.Solar) *calendar.Solar { return x.NextHour(-24) }},
+				{"00:00:00.NextHour(24).NextHour(-24)", 0, 0, 0, 0, func(x *calendar.Solar) *calendar.Solar { return x.NextHour(24).NextHour(-24) }},
+				{"00:00:00.NextHour(-48)", 0, 0, 0, -48, func(x *calendar.Solar) *calendar.Solar { return x.NextHour(-48) }},
+				{"05:00:00.NextHour(-29)", 5, 0, 0, -29, func(x *calendar.Solar) *calendar.Solar { return x.NextHour(-29) }},
+				{"05:00:00.NextHour(19)", 5, 0, 0, 19, func(x *calendar.Solar) *calendar.Solar { return x.NextHour(19) }},
+				{"23:59:59.NextHour(1)", 23, 59, 59, 1, func(x *calendar.Solar) *calendar.Solar { return x.NextHour(1) }},
+				{"23:00:00.NextHour(25)", 23, 0, 0, 25, func(x *calendar.Solar) *calendar.Solar { return x.NextHour(25) }},
+				{"12:30:15.NextHour(-12)", 12, 30, 15, -12, func(x *calendar.Solar) *calendar.Solar { return x.NextHour(-12) }},
+				{"12:30:15.NextHour(-13)", 12, 30, 15, -13, func(x *calendar.Solar) *calendar.Solar { return x.NextHour(-13) }},
+				{"23:59:59.NextDay(1)", 23, 59, 59, 24, func(x *calendar.Solar) *calendar.Solar { return x.NextDay(1) }},
+				{"00:00:00.NextDay(-1)", 0, 0, 0, -24, func(x *calendar.Solar) *calendar.Solar { return x.NextDay(-1) }},
+				{"00:00:00.Next(-1,false)", 0, 0, 0, -24, func(x *calendar.Solar) *calendar.Solar { return x.Next(-1, false) }},
+			}
+			for k := 0; k < 4; k++ {
+				nv := navs[(d.J+3*k)%len(navs)]
+				tot := int64(d.J)*86400 + int64(nv.h*3600+nv.mi*60+nv.s) + int64(nv.hours)*3600
+				tj := int(tot / 86400)
+				if tj < jdnFirst || tj > r1JDN(9999, 12, 31) {
+					continue
+				}
+				ey, em, ed := r1FromJDN(tj)
+				sod := int(tot % 86400)
+				want := fmt.Sprintf("%04d-%02d-%02d %02d:%02d:%02d", ey, em, ed, sod/3600, sod/60%60, sod%60)
+				var got, gotYmd string
+				msg, p := try(func() { o := nv.f(d.At(nv.h, nv.mi, nv.s)); got = o.ToYmdHms(); gotYmd = o.ToYmd() })
+				w.R.Transitions++
+				w.R.Traces++
+				if p {
+					w.Viol("C19:nav-print:panic:"+d.Ymd, fmt.Sprintf("%s %s panics: %s", d.Ymd, nv.name, msg), d.Ymd)
+				} else if got != want || gotYmd != want[:10] {
+					w.Viol("C19:nav-print:"+d.Ymd, fmt.Sprintf("%s %s prints %q / %q, the moment reached is %q", d.Ymd, nv.name, got, gotYmd, want), d.Ymd)
+				}
+			}
 		}
 		if d.Y > 9998 {
 			return
